@@ -593,10 +593,24 @@ def alter_code(
             )
             for x, y in replacements.items()
     ),]
+    # The removals are carried out one at a time, so a block that loses all of its (several)
+    # statements is not seen as emptied by any single removal: its first statement leaves a pass
+    removal_set = set(removals)
+    pass_carriers = set()
+    for node in core.walk(root, ast.AST):
+        if isinstance(node, ast.Module):
+            continue
+        for field in ("body", "orelse", "finalbody"):
+            block = getattr(node, field, None)
+            if isinstance(block, list) and len(block) > 1 and removal_set.issuperset(block):
+                pass_carriers.add(block[0])
+
     # a < d => deletions will go before additions if same lineno and reversed sorting.
     for *_, action, _, value in sorted(actions, reverse=True):
         if action == "add":
             source = _insert_nodes(source, [value])
+        elif action == "delete" and value in pass_carriers:
+            source = _replace_nodes(source, {value: ast.Pass()})
         elif action == "delete":
             source = remove_nodes(source, [value], root)
         elif action == "replace":
